@@ -240,6 +240,9 @@ func checkC20(ctx *Ctx) {
 	replayBashFanIn(ctx, cli, root)
 	replayBashJoin(ctx, cli, root)
 	reportTagged(ctx, cli, root)
+	for k := 0; k < 6; k++ {
+		reportFastChain(ctx, cli, k)
+	}
 }
 
 func stripIDs(ids []string) []string {
@@ -472,6 +475,53 @@ func reportTagged(ctx *Ctx, cli, root string) {
 		if seen[n] != 1 {
 			ctx.Res.Violate(Violation{What: fmt.Sprintf("the report lists task %s %d times", n, seen[n]), Class: "c20.report-incomplete", Witness: "tagged"})
 		}
+	}
+}
+
+// a chain of Go-function tasks on a memory file system (they start within microseconds of each other): the report
+// still lists every task after the tasks it depends on, because it is ordered by the recorded start times
+func reportFastChain(ctx *Ctx, cli string, k int) {
+	base := "/dev/shm"
+	if fi, err := os.Stat(base); err != nil || !fi.IsDir() {
+		base = scratch()
+	}
+	dir, err := ioutil.TempDir(base, "verif-c20fast-")
+	if err != nil {
+		return
+	}
+	defer os.RemoveAll(dir)
+	ioutil.WriteFile(filepath.Join(dir, "a.txt"), []byte("a\n"), 0644)
+	d := &Desc{Name: "fast", Max: 4, Nodes: []Node{{Name: "s", Kind: "filesource", Paths: []string{"a.txt"}}}}
+	prev := "s.out"
+	names := []string{}
+	for i := 0; i < 5; i++ {
+		nm := fmt.Sprintf("g%d", i)
+		names = append(names, nm)
+		d.Nodes = append(d.Nodes, Node{Name: nm, Kind: "proc", Cmd: "echo {i:in} > {o:out}", Custom: "tempwrite", Outs: map[string]string{"out": "{i:in}." + nm}})
+		d.Edges = append(d.Edges, Edge{From: prev, To: nm + ".in"})
+		prev = nm + ".out"
+	}
+	rr := RunWorkflow(d, RunOpts{Dir: dir})
+	ctx.Res.Eval(fmt.Sprintf("report-fast-chain %d", k), true, "chain of Go-function tasks on a memory file system")
+	ctx.Res.Count("fast-chain-report")
+	if rr.Exit != 0 {
+		ctx.Res.Disagree(Violation{What: "fast chain workflow failed: " + tail(rr.Stderr), Witness: "fast-chain"})
+		return
+	}
+	last := "a.txt.g0.g1.g2.g3.g4"
+	if out, err := runCLI(cli, dir, "audit2html", last+".audit.json"); err != nil {
+		ctx.Res.Violate(Violation{What: "audit2html failed: " + tail(out), Class: "c20.cli-failed", Witness: "fast-chain"})
+		return
+	}
+	html, _ := ioutil.ReadFile(filepath.Join(dir, last+".audit.html"))
+	got := []string{}
+	for _, blk := range strings.Split(string(html), "<table>")[1:] {
+		if nm := between(blk, "<strong>", "</strong>"); nm != "" { // the source file's empty record has no process name
+			got = append(got, nm)
+		}
+	}
+	if strings.Join(got, ",") != strings.Join(names, ",") {
+		ctx.Res.Violate(Violation{What: fmt.Sprintf("the report of a chain of fast tasks lists them in the order %v; each depends on the one before: %v", got, names), Class: "c20.report-order", Witness: "fast-chain"})
 	}
 }
 
